@@ -169,5 +169,13 @@ func describe(v ssa.Value) string {
 	if ap := core.AccessPath(v); ap != "" && !strings.HasPrefix(ap, "local:") {
 		return ap
 	}
+	if _, bind := core.Unbind(v); bind != nil {
+		// a helper's value: render it in the caller's terms when its root is a caller value
+		root, path := core.BaseObject(v)
+		if _, still := root.(*core.Bound); !still && root != nil {
+			return describe(root) + path
+		}
+		return strings.Join(core.RootDescs(SliceB(v)), "|")
+	}
 	return strings.Join(core.RootDescs(core.Slice(v)), "|")
 }
